@@ -233,11 +233,14 @@ def linen_stacking(case, ctx):
                               max_size=2),
             'axis': st.integers(0, 2), 'kind': st.sampled_from(['vmap',
                                                                 'scan']),
+            # the stacked axis may be declared unsharded: partition name None
+            'pn_none': st.sampled_from([False, False, True]),
             'seed': st.integers(0, 2**16)}),
         quick=100, thorough=3000, quick_shards=10, shrink=False,
         rule='nnx.Linear kernels annotated with nnx.with_partitioning are '
         'created under nnx.vmap / nnx.scan with transform_metadata partition '
-        'name and stacking axis 0-2: sharding has one entry per dimension with '
+        'name (a string, or None for an unsharded stacking axis) and stacking '
+        'axis 0-2: sharding has one entry per dimension with '
         'the partition name at the stacking axis; inside a mapped forward pass '
         'the name is removed and the per-slice shape restored; afterwards the '
         'stacked metadata is back; nnx.get_partition_spec returns the names; '
@@ -246,7 +249,8 @@ def nnx_transform_metadata(case, ctx):
   din, dout, names = case['din'], case['dout'], tuple(case['names'])
   ax = case['axis']
   n = N_SCAN if case['kind'] == 'scan' else N_VMAP
-  tm = {nnx.PARTITION_NAME: 'layers'}
+  PN_ = None if case.get('pn_none') else 'layers'
+  tm = {nnx.PARTITION_NAME: PN_}
   st_axes = nnx.StateAxes({nnx.Param: ax, ...: 0})   # BatchStat stacks on 0
   def make(key):
     m = nnx.Linear(din, dout, use_bias=False,
@@ -264,7 +268,7 @@ def nnx_transform_metadata(case, ctx):
     else:
       model = nnx.scan(make, in_axes=0, out_axes=st_axes, length=n,
                        transform_metadata=tm)(keys)
-  exp_names = insert(names, ax, 'layers')
+  exp_names = insert(names, ax, PN_)
   exp_shape = insert((din, dout), ax, n)
   k = model.kernel
   require(tuple(k.value.shape) == exp_shape, lambda: f'kernel shape '
@@ -272,12 +276,12 @@ def nnx_transform_metadata(case, ctx):
   require(tuple(k.sharding) == exp_names, lambda: f'sharding {k.sharding}, '
           f'expected {exp_names}')
   t = model.temperature
-  require(tuple(t.value.shape) == (n,) and tuple(t.sharding) == ('layers',),
+  require(tuple(t.value.shape) == (n,) and tuple(t.sharding) == (PN_,),
           lambda: f'rank-0 Variable stacked to shape {t.value.shape} carries '
-          f'sharding {t.sharding!r}, expected (\'layers\',)')
+          f'sharding {t.sharding!r}, expected {(PN_,)!r}')
   with sut('nnx.get_partition_spec'):
     spec = nnx.get_partition_spec(nnx.state(model))
-  require(spec['temperature'].value == P('layers'), lambda: 'partition spec '
+  require(spec['temperature'].value == P(PN_), lambda: 'partition spec '
           f'of the stacked rank-0 Variable is {spec["temperature"].value}')
   require(spec['kernel'].value == P(*exp_names), lambda: f'partition spec '
           f'{spec["kernel"].value} != {P(*exp_names)}')
@@ -306,14 +310,16 @@ def nnx_transform_metadata(case, ctx):
   require(seen['t_sharding'] == () and seen['t_shape'] == (), lambda: 'inside '
           f'the transform the rank-0 Variable has sharding '
           f'{seen["t_sharding"]} / shape {seen["t_shape"]}')
-  require(tuple(model.temperature.sharding) == ('layers',), lambda: 'rank-0 '
+  require(tuple(model.temperature.sharding) == (PN_,), lambda: 'rank-0 '
           f'Variable lost its annotation after the transform: '
           f'{model.temperature.sharding!r}')
   ref = np.stack([np.asarray(x[i]) @ np.take(np.asarray(k.value), i, axis=ax)
                   for i in range(n)])
   require(np.allclose(np.asarray(y), ref, rtol=1e-4, atol=1e-5), 'annotated kernel '
           'computes differently from its raw slices')
-  ctx.note(labels=[case['kind'], f'axis{ax}'], nontrivial=ax > 0)
+  ctx.note(labels=[case['kind'], f'axis{ax}',
+                   'unsharded-stack-axis' if PN_ is None else 'named'],
+           nontrivial=ax > 0)
 
 
 # ----------------------------------------------------------------------------
